@@ -200,3 +200,26 @@ Definition implicit_worst (c : icase) : list Z :=
                   map (fun cf => form_ratio cs (map (fun o => fluct0 o n cf) u_obs ++ map (fun ow => Qred (snd ow * fluct0 (fst ow) n cf)) (combine d_obs ws)))
                       (union_cfgs (u_obs ++ d_obs) n)) (sample_names (u_obs ++ d_obs))))
       (seq 0 (ic_nv c)).
+
+(* ------------------------------------------------------------------ roots and integrals (C09) *)
+(* the equations hold at the solution: |eq_i| <= tol |d eq_i / d u_i| (1 + |u_i|)  (Newton step below tol, relative to the unknown) *)
+Definition equations_hold (c : icase) (tol : Q) : bool :=
+  forallb (fun i =>
+    let eq := nth i (ic_eqs c) (EC 0) in
+    let u := qI (nth i (ic_uvals c) 0%Q) in
+    certainly_le (I.abs (evalI (ic_env c) eq))
+                 (I.mul prec (qI tol) (I.mul prec (I.abs (evalI (ic_env c) (Dfold eq i))) (I.add prec (zI 1) (I.abs u)))))
+    (seq 0 (ic_nu c)).
+(* the solution agrees with a closed form g(d) *)
+Definition closed_form_ok (c : icase) (g : expr) (tol : Q) : bool :=
+  guardsI (ic_env c) g &&
+  within (evalI (ic_env c) g) (nth 0 (ic_uvals c) 0%Q) (Qabs.Qabs (nth 0 (ic_uvals c) 0%Q) * tol + tol).
+(* dFa/dx = f at the points xs (consistency of an integrand with its antiderivative; variable xv) *)
+Definition antiderivative_ok (Fa f : expr) (xv : nat) (envs : list (list Q)) (tol : Q) : bool :=
+  forallb (fun l => guardsI (qenvI l) Fa && certainly_le (I.abs (I.sub prec (evalI (qenvI l) (Dfold Fa xv)) (evalI (qenvI l) f))) (qI tol)) envs.
+
+Record rcase := mkRCase { rc_ic : icase; rc_tol : Q; rc_closed : option expr }.
+Definition rcase_root (c : rcase) : bool := equations_hold (rc_ic c) (rc_tol c).
+Definition rcase_implicit (c : rcase) : bool := implicit_ok (rc_ic c).
+Definition rcase_closed (c : rcase) : bool := match rc_closed c with Some g => closed_form_ok (rc_ic c) g (rc_tol c) | None => true end.
+Definition rcase_values (c : rcase) : bool := all2 (fun o v => Qeq_bool (o_value o) v) (ic_uobs (rc_ic c)) (firstn (ic_nv (rc_ic c)) (ic_uvals (rc_ic c))).
